@@ -98,6 +98,26 @@ fn n32(n: u32) -> Value {
 pub fn run_c09<A: Cx>(d: &mut Drv<A>, scale: usize, all: bool) {
     let w = A::BITS as usize;
     let codes = d.codes();
+    // the same packed integer held by k-mers of DIFFERENT K, operated on back to back, K ascending and
+    // descending (anything remembered from one call must not leak into the next)
+    if let Some(zero) = codes.iter().copied().find(|&c| c == 0) {
+        let head = d.rand_syms(3);
+        let ks: Vec<usize> = kset::<A>("usize", all).into_iter().filter(|&k| k >= 3).collect();
+        let order: Vec<usize> = ks.iter().copied().chain(ks.iter().rev().copied()).collect();
+        for k in order {
+            let mut p = head.clone();
+            p.resize(k, zero);
+            d.emit(json!({"op": "fromsyms", "dst": 0, "c": A::NAME, "via": "iter", "syms": p}));
+            d.emit(json!({"op": "kfrom", "kd": 0, "src": whole(0), "k": k, "st": "usize", "via": "slice"}));
+            d.emit(json!({"op": "kop", "kd": 1, "ks": 0, "t": "rev", "via": "copy", "arg": 0}));
+            d.emit(json!({"op": "kop", "kd": 2, "ks": 0, "t": "rotl", "arg": n32(1)}));
+            d.emit(json!({"op": "kop", "kd": 2, "ks": 0, "t": "pushr", "arg": head[0]}));
+            if A::NAME == "dna" {
+                d.emit(json!({"op": "kop", "kd": 1, "ks": 0, "t": "revcomp", "via": "copy", "arg": 0}));
+                d.emit(json!({"op": "kop", "kd": 1, "ks": 0, "t": "comp", "via": "copy", "arg": 0}));
+            }
+        }
+    }
     for _ in 0..scale.max(1) {
         for st in ["usize", "u64", "u128"] {
             for k in kset::<A>(st, all) {
@@ -196,7 +216,7 @@ pub fn run_c09_exhaustive<A: Cx>(d: &mut Drv<A>, kmax: usize) {
 }
 
 pub fn is_ord<A: Cx>() -> bool {
-    matches!(A::NAME, "dna" | "text" | "mdna" | "miupac" | "degen")
+    matches!(A::NAME, "dna" | "text" | "mdna" | "miupac" | "degen" | "x3" | "x7")
 }
 
 pub fn run_c10<A: Cx>(d: &mut Drv<A>, scale: usize, all: bool) {
@@ -252,6 +272,20 @@ pub fn run_c10<A: Cx>(d: &mut Drv<A>, scale: usize, all: bool) {
             for (which, via) in [("min", "iter"), ("max", "iter"), ("min", "sort"), ("max", "sort")] {
                 d.emit(json!({"op": "kminmax", "src": sl(4, off, off + n), "k": k, "which": which, "via": via}));
             }
+        }
+        // equal content reached through different histories orders as Equal (and like the parsed one)
+        for _ in 0..8 {
+            let n = d.rng.range(1, 3 * 64 / w + 3);
+            let x = d.rand_syms(n);
+            d.produce(7, &x);
+            d.produce(8, &x);
+            d.emit(json!({"op": "cmp", "x": {"kind": "seq", "src": whole(7)}, "y": {"kind": "seq", "src": whole(8)}}));
+            let mut y = x.clone();
+            let p = d.rng.below(n);
+            y[p] = *d.rng.pick(&codes);
+            d.produce(9, &y);
+            d.emit(json!({"op": "cmp", "x": {"kind": "seq", "src": whole(7)}, "y": {"kind": "seq", "src": whole(9)}}));
+            d.emit(json!({"op": "cmp", "x": {"kind": "seq", "src": whole(9)}, "y": {"kind": "seq", "src": whole(8)}}));
         }
         // longer owned sequences of equal length (beyond one word)
         for _ in 0..6 {
